@@ -159,11 +159,14 @@ def build_grid(probes, repo=None):
             fh.write(PRELUDE + "\n" + "\n\n".join(p.source() for p in probes) + "\n\n" + uses(probes) + "\n")
         out = os.path.join(tmp, "out")
         os.makedirs(out)
+        from . import depcache
+        depcache.seed(os.path.join(tmp, "t"), repo, "grid")
         env = build._env(out, os.path.join(tmp, "t"), ["ccgrid"], True)
         r = subprocess.run(["cargo", "+nightly", "check", "--offline"], cwd=os.path.join(tmp, "p"), env=env, stdout=subprocess.PIPE, stderr=subprocess.STDOUT, text=True)
         fact = os.path.join(out, "ccgrid.json")
         if r.returncode != 0 or not os.path.exists(fact):
             return None, r.stdout[-4000:]
+        depcache.save(os.path.join(tmp, "t"), repo, "grid")
         return Facts(fact), ""
     finally:
         shutil.rmtree(tmp, ignore_errors=True)
